@@ -1,7 +1,7 @@
 (* C19: soundness of the template checker.  If `tmpl_ok t` then for EVERY environment that fills the
    identifier-class holes with identifiers the rendered statement is well-formed, and its text does not
    depend on anything but those identifiers. *)
-From Coq Require Import List NArith Bool Lia.
+From Coq Require Import List NArith Bool Lia PeanoNat.
 Import ListNotations.
 From FIM Require Import Base.Str Model.Cypher19.
 Open Scope N_scope.
@@ -53,9 +53,56 @@ Proof.
   apply scan_skip; [destruct s; reflexivity|exact Hr].
 Qed.
 
+(* ------------------------------------------------------------------------------------------- *)
+(* escaped text never leaves the quoted literal it is pasted into                                *)
+(* ------------------------------------------------------------------------------------------- *)
+Lemma step_sq_bs s : s_mode s = MSq -> step s 92 = Some (set_mode MSqE s).
+Proof. intro Hm. unfold step. rewrite Hm. reflexivity. Qed.
+Lemma step_sqe s c : s_mode s = MSqE -> step s c = Some (set_mode MSq s).
+Proof. intro Hm. unfold step. rewrite Hm. reflexivity. Qed.
+Lemma step_sq_other s c :
+  s_mode s = MSq -> (c =? 92) = false -> (c =? 39) = false -> step s c = Some s.
+Proof. intros Hm H1 H2. unfold step. rewrite Hm, H1, H2. reflexivity. Qed.
+Lemma step_dq_bs s : s_mode s = MDq -> step s 92 = Some (set_mode MDqE s).
+Proof. intro Hm. unfold step. rewrite Hm. reflexivity. Qed.
+Lemma step_dqe s c : s_mode s = MDqE -> step s c = Some (set_mode MDq s).
+Proof. intro Hm. unfold step. rewrite Hm. reflexivity. Qed.
+Lemma step_dq_other s c :
+  s_mode s = MDq -> (c =? 92) = false -> (c =? 34) = false -> step s c = Some s.
+Proof. intros Hm H1 H2. unfold step. rewrite Hm, H1, H2. reflexivity. Qed.
+
+Lemma scan_esc_sq s v : s_mode s = MSq -> scan s (esc_q v) = Some s.
+Proof.
+  intro Hm. induction v as [|c r IH]; [reflexivity|].
+  cbn [esc_q]. destruct ((c =? 92) || (c =? 39) || (c =? 34)) eqn:Hc.
+  - cbn [scan]. rewrite (step_sq_bs s Hm).
+    rewrite (step_sqe (set_mode MSqE s) c) by (destruct s; reflexivity).
+    replace (set_mode MSq (set_mode MSqE s)) with s by (destruct s; simpl in Hm; subst; reflexivity).
+    exact IH.
+  - apply orb_false_iff in Hc as [Hc H3]. apply orb_false_iff in Hc as [H1 H2].
+    cbn [scan]. rewrite (step_sq_other s c Hm H1 H2). exact IH.
+Qed.
+
+Lemma scan_esc_dq s v : s_mode s = MDq -> scan s (esc_q v) = Some s.
+Proof.
+  intro Hm. induction v as [|c r IH]; [reflexivity|].
+  cbn [esc_q]. destruct ((c =? 92) || (c =? 39) || (c =? 34)) eqn:Hc.
+  - cbn [scan]. rewrite (step_dq_bs s Hm).
+    rewrite (step_dqe (set_mode MDqE s) c) by (destruct s; reflexivity).
+    replace (set_mode MDq (set_mode MDqE s)) with s by (destruct s; simpl in Hm; subst; reflexivity).
+    exact IH.
+  - apply orb_false_iff in Hc as [Hc H3]. apply orb_false_iff in Hc as [H1 H2].
+    cbn [scan]. rewrite (step_dq_other s c Hm H1 H3). exact IH.
+Qed.
+
+(* a value escaped d+1 times, pasted inside a literal of either quote kind, leaves the scanner where it was *)
+Lemma scan_esc_n s d v :
+  (s_mode s = MSq \/ s_mode s = MDq) -> scan s (esc_n (Datatypes.S d) v) = Some s.
+Proof. intros [H|H]; cbn [esc_n]; [apply scan_esc_sq|apply scan_esc_dq]; exact H. Qed.
+
 Lemma idents_ok_tail f fs e : idents_ok (f :: fs) e -> idents_ok fs e.
 Proof.
-  unfold idents_ok. intros H v Hv. apply H. destruct f as [t|v' [|]]; simpl; auto.
+  unfold idents_ok. intros H v Hv. apply H. destruct f as [t|v' [| |d]]; simpl; auto.
 Qed.
 
 Theorem tscan_sound : forall fs s s' e,
@@ -63,7 +110,7 @@ Theorem tscan_sound : forall fs s s' e,
 Proof.
   induction fs as [|f fs IH]; intros s s' e H Hid; simpl in *.
   - exact H.
-  - destruct f as [t|v [|]].
+  - destruct f as [t|v [| |d]].
     + rewrite scan_app. destruct (scan s t) as [s1|]; [|discriminate].
       apply IH; [exact H|exact (idents_ok_tail _ _ _ Hid)].
     + destruct (hole_ok s) eqn:Hok; [|discriminate].
@@ -71,27 +118,38 @@ Proof.
       * apply IH; [exact H|exact (idents_ok_tail _ _ _ Hid)].
       * apply Hid. simpl. left; reflexivity.
     + discriminate.
+    + destruct d as [|d]; [discriminate|].
+      assert (Hm : s_mode s = MSq \/ s_mode s = MDq) by (destruct (s_mode s); try discriminate; auto).
+      rewrite scan_app, (scan_esc_n s d (e v) Hm).
+      apply IH; [|exact (idents_ok_tail _ _ _ Hid)].
+      destruct (s_mode s); try discriminate; exact H.
 Qed.
 
 Lemma tscan_no_value : forall fs s s', tscan s fs = Some s' -> has_value_hole fs = false.
 Proof.
   induction fs as [|f fs IH]; intros s s' H; simpl in *; [reflexivity|].
-  destruct f as [t|v [|]].
+  destruct f as [t|v [| |d]].
   - destruct (scan s t); [eapply IH; eassumption|discriminate].
   - destruct (hole_ok s); [eapply IH; eassumption|discriminate].
   - discriminate.
+  - destruct d as [|d]; [discriminate|]. destruct (s_mode s); try discriminate; eapply IH; eassumption.
 Qed.
 
 Theorem render_indep : forall fs e e',
-  has_value_hole fs = false -> agree_on (ident_vars fs) e e' -> render fs e = render fs e'.
+  has_value_hole fs = false -> has_esc_hole fs = false ->
+  agree_on (ident_vars fs) e e' -> render fs e = render fs e'.
 Proof.
-  induction fs as [|f fs IH]; intros e e' Hv Ha; simpl in *; [reflexivity|].
-  destruct f as [t|v [|]].
+  induction fs as [|f fs IH]; intros e e' Hv He Ha; simpl in *; [reflexivity|].
+  destruct f as [t|v [| |d]].
   - f_equal. apply IH; assumption.
-  - rewrite (Ha v (or_introl eq_refl)). f_equal. apply IH; [assumption|].
+  - rewrite (Ha v (or_introl eq_refl)). f_equal. apply IH; [assumption|assumption|].
     intros w Hw. apply Ha. right; exact Hw.
   - discriminate.
+  - discriminate.
 Qed.
+
+Lemma idents_ok_agree fs e e' : idents_ok fs e -> agree_on (ident_vars fs) e e' -> idents_ok fs e'.
+Proof. intros H Ha v Hv. rewrite <- (Ha v Hv). exact (H v Hv). Qed.
 
 Lemma tmpl_ok_inv t :
   tmpl_ok t = true ->
@@ -109,23 +167,35 @@ Proof.
 Qed.
 
 Theorem tmpl_ok_data_independent t :
-  tmpl_ok t = true -> forall e e', agree_on (ident_vars (t_frags t)) e e' ->
+  tmpl_ok t = true -> has_esc_hole (t_frags t) = false ->
+  forall e e', agree_on (ident_vars (t_frags t)) e e' ->
   render (t_frags t) e = render (t_frags t) e'.
 Proof.
-  intros H e e' Ha. destruct (tmpl_ok_inv t H) as [_ [s [Hs _]]].
-  apply render_indep; [exact (tscan_no_value _ _ _ Hs)|exact Ha].
+  intros H He e e' Ha. destruct (tmpl_ok_inv t H) as [_ [s [Hs _]]].
+  apply render_indep; [exact (tscan_no_value _ _ _ Hs)|exact He|exact Ha].
+Qed.
+
+(* with escaped literals the text may differ - inside those literals only: the scanner ends in the same state *)
+Theorem tmpl_ok_structure_independent t :
+  tmpl_ok t = true -> forall e e', idents_ok (t_frags t) e -> idents_ok (t_frags t) e' ->
+  scan init (render (t_frags t) e) = scan init (render (t_frags t) e').
+Proof.
+  intros H e e' Hid Hid'. destruct (tmpl_ok_inv t H) as [_ [s [Hs _]]].
+  rewrite (tscan_sound _ _ _ e Hs Hid), (tscan_sound _ _ _ e' Hs Hid'). reflexivity.
 Qed.
 
 Theorem tmpl_ok_sound t :
   tmpl_ok t = true ->
   forall e e', idents_ok (t_frags t) e -> agree_on (ident_vars (t_frags t)) e e' ->
-  render (t_frags t) e = render (t_frags t) e' /\
+  (has_esc_hole (t_frags t) = false -> render (t_frags t) e = render (t_frags t) e') /\
+  scan init (render (t_frags t) e) = scan init (render (t_frags t) e') /\
   wf_b (render (t_frags t) e) (t_params t) = true /\ wf_b (render (t_frags t) e') (t_params t) = true.
 Proof.
   intros H e e' Hid Ha.
-  pose proof (tmpl_ok_data_independent t H e e' Ha) as Heq.
-  pose proof (tmpl_ok_well_formed t H e Hid) as Hwf.
-  split; [exact Heq|]. split; [exact Hwf|]. rewrite <- Heq. exact Hwf.
+  pose proof (idents_ok_agree _ _ _ Hid Ha) as Hid'.
+  split; [intro He; exact (tmpl_ok_data_independent t H He e e' Ha)|].
+  split; [exact (tmpl_ok_structure_independent t H e e' Hid Hid')|].
+  split; [exact (tmpl_ok_well_formed t H e Hid)|exact (tmpl_ok_well_formed t H e' Hid')].
 Qed.
 
 (* the boolean form of idents_ok used by the correspondence *)
@@ -167,28 +237,6 @@ Qed.
 (* ------------------------------------------------------------------------------------------- *)
 Definition after_literal (s : sstate) : sstate := set_pv POther (set_mode MNorm (resolve s)).
 
-Lemma step_sq_bs s : s_mode s = MSq -> step s 92 = Some (set_mode MSqE s).
-Proof. intro Hm. unfold step. rewrite Hm. reflexivity. Qed.
-
-Lemma step_sqe s c : s_mode s = MSqE -> step s c = Some (set_mode MSq s).
-Proof. intro Hm. unfold step. rewrite Hm. reflexivity. Qed.
-
-Lemma step_sq_other s c :
-  s_mode s = MSq -> (c =? 92) = false -> (c =? 39) = false -> step s c = Some s.
-Proof. intros Hm H1 H2. unfold step. rewrite Hm, H1, H2. reflexivity. Qed.
-
-Lemma scan_esc_body s v :
-  s_mode s = MSq -> scan s (esc_sq v) = Some s.
-Proof.
-  intro Hm. induction v as [|c r IH]; [reflexivity|].
-  cbn [esc_sq]. destruct ((c =? 92) || (c =? 39)) eqn:Hc.
-  - cbn [scan]. rewrite (step_sq_bs s Hm).
-    rewrite (step_sqe (set_mode MSqE s) c) by (destruct s; reflexivity).
-    replace (set_mode MSq (set_mode MSqE s)) with s by (destruct s; simpl in Hm; subst; reflexivity).
-    exact IH.
-  - apply orb_false_iff in Hc as [H1 H2]. cbn [scan]. rewrite (step_sq_other s c Hm H1 H2). exact IH.
-Qed.
-
 Theorem scan_quoted_literal s v :
   s_mode s = MNorm -> is_keyctx (s_pv s) = false ->
   scan s (quoted_literal v) = Some (after_literal s).
@@ -197,7 +245,7 @@ Proof.
   assert (H1 : step s 39 = Some (set_mode MSq (resolve s))).
   { unfold step. rewrite Hm. unfold step_norm. rewrite Hk. reflexivity. }
   rewrite H1, scan_app.
-  rewrite scan_esc_body by (destruct (resolve s); reflexivity).
+  rewrite scan_esc_sq by (destruct (resolve s); reflexivity).
   cbn [scan]. unfold step.
   replace (s_mode (set_mode MSq (resolve s))) with MSq by (destruct (resolve s); reflexivity).
   cbn. unfold after_literal. destruct (resolve s); reflexivity.
@@ -209,4 +257,128 @@ Theorem escaped_literal_wf pre post ps v v' s :
 Proof.
   intros Hs Hm Hk. unfold wf_b.
   rewrite !scan_app, Hs, !scan_app, !(scan_quoted_literal s _ Hm Hk). reflexivity.
+Qed.
+
+(* ------------------------------------------------------------------------------------------- *)
+(* nesting: what the database reads back from an escaped literal is the text that was escaped     *)
+(* ------------------------------------------------------------------------------------------- *)
+Theorem unesc_esc v : unesc (esc_q v) = v.
+Proof.
+  induction v as [|c r IH]; [reflexivity|].
+  cbn [esc_q]. destruct ((c =? 92) || (c =? 39) || (c =? 34)) eqn:Hc.
+  - cbn [unesc]. rewrite N.eqb_refl. f_equal. exact IH.
+  - apply orb_false_iff in Hc as [Hc _]. apply orb_false_iff in Hc as [H1 _].
+    cbn [unesc]. rewrite H1. f_equal. exact IH.
+Qed.
+
+Fixpoint unesc_n (d : nat) (v : str) : str :=
+  match d with O => v | Datatypes.S d' => unesc_n d' (unesc v) end.
+
+Theorem unesc_esc_n d v : unesc_n d (esc_n d v) = v.
+Proof. induction d as [|d IH]; [reflexivity|]. cbn [esc_n unesc_n]. rewrite unesc_esc. exact IH. Qed.
+
+Lemma esc_q_app a b : esc_q (a ++ b) = esc_q a ++ esc_q b.
+Proof.
+  induction a as [|c r IH]; [reflexivity|].
+  cbn [esc_q app]. rewrite IH. destruct ((c =? 92) || (c =? 39) || (c =? 34)); reflexivity.
+Qed.
+
+Lemma idchar_not_special c : is_idchar c = true -> ((c =? 92) || (c =? 39) || (c =? 34)) = false.
+Proof.
+  unfold is_idchar, is_idstart, is_upper, is_lower, is_digit. intro H.
+  repeat rewrite orb_true_iff in H. repeat rewrite andb_true_iff in H.
+  repeat rewrite N.leb_le in H. rewrite N.eqb_eq in H.
+  repeat rewrite orb_false_iff. repeat rewrite N.eqb_neq. lia.
+Qed.
+
+Lemma esc_q_idchars w : forallb is_idchar w = true -> esc_q w = w.
+Proof.
+  induction w as [|c r IH]; [reflexivity|]. cbn [forallb]. intro H.
+  apply andb_true_iff in H as [Hc Hr]. cbn [esc_q]. rewrite (idchar_not_special c Hc), (IH Hr). reflexivity.
+Qed.
+
+Lemma esc_q_ident w : ident_okb w = true -> esc_q w = w.
+Proof.
+  intro H. apply esc_q_idchars. destruct w as [|c r]; [discriminate|].
+  cbn [ident_okb] in H. apply andb_true_iff in H as [Hc Hr]. cbn [forallb].
+  rewrite (idstart_idchar c Hc), Hr. reflexivity.
+Qed.
+
+Theorem render_esc_frags fs e :
+  idents_ok fs e -> render (esc_frags fs) e = esc_q (render fs e).
+Proof.
+  induction fs as [|f fs IH]; intro Hid; [reflexivity|].
+  pose proof (IH (idents_ok_tail _ _ _ Hid)) as IH'.
+  destruct f as [t|v [| |d]]; cbn [esc_frags map esc_frag render] in *; rewrite esc_q_app.
+  - unfold esc_frags in IH'. rewrite IH'. reflexivity.
+  - unfold esc_frags in IH'. rewrite IH'. rewrite (esc_q_ident (e v)); [reflexivity|].
+    apply Hid. simpl. left; reflexivity.
+  - unfold esc_frags in IH'. rewrite IH'. reflexivity.
+  - unfold esc_frags in IH'. rewrite IH'. reflexivity.
+Qed.
+
+(* items: a fragment list as a sequence of characters and holes *)
+Definition irender (e : env) (i : item) : str :=
+  match i with IChar c => [c] | IHole v k => render [Hole v k] e end.
+
+Lemma render_app a b e : render (a ++ b) e = render a e ++ render b e.
+Proof.
+  induction a as [|f a IH]; [reflexivity|].
+  destruct f as [t|v [| |d]]; cbn [app render]; rewrite IH, app_assoc; reflexivity.
+Qed.
+
+Lemma concat_map_chars e s : concat (map (irender e) (map IChar s)) = s.
+Proof. induction s as [|c r IH]; [reflexivity|]. cbn. rewrite IH. reflexivity. Qed.
+
+Lemma render_items fs e : render fs e = concat (map (irender e) (items fs)).
+Proof.
+  induction fs as [|f fs IH]; [reflexivity|].
+  destruct f as [t|v k]; cbn [items].
+  - rewrite map_app, concat_app, concat_map_chars. cbn [render]. rewrite IH. reflexivity.
+  - cbn [map concat]. rewrite <- IH. change (Hole v k :: fs) with ([Hole v k] ++ fs).
+    rewrite render_app. reflexivity.
+Qed.
+
+Lemma hkind_eqb_eq a b : hkind_eqb a b = true -> a = b.
+Proof.
+  destruct a, b; simpl; intro H; try discriminate; try reflexivity.
+  apply Nat.eqb_eq in H. subst. reflexivity.
+Qed.
+
+Lemma item_eqb_eq a b : item_eqb a b = true -> a = b.
+Proof.
+  destruct a, b; simpl; intro H; try discriminate.
+  - apply N.eqb_eq in H. subst. reflexivity.
+  - apply andb_true_iff in H as [H1 H2]. apply N.eqb_eq in H1. apply hkind_eqb_eq in H2. subst. reflexivity.
+Qed.
+
+Lemma prefixb_app a b : prefixb a b = true -> exists post, b = a ++ post.
+Proof.
+  revert b; induction a as [|x a IH]; intros b H.
+  - exists b. reflexivity.
+  - destruct b as [|y b]; [discriminate|]. cbn [prefixb] in H.
+    apply andb_true_iff in H as [H1 H2]. apply item_eqb_eq in H1. subst.
+    destruct (IH b H2) as [post Hp]. exists post. rewrite Hp. reflexivity.
+Qed.
+
+Lemma infixb_app a b : infixb a b = true -> exists pre post, b = pre ++ a ++ post.
+Proof.
+  induction b as [|y b IH]; intro H.
+  - cbn [infixb] in H. rewrite orb_false_r in H. destruct (prefixb_app _ _ H) as [post Hp].
+    exists [], post. exact Hp.
+  - cbn [infixb] in H. apply orb_true_iff in H as [H|H].
+    + destruct (prefixb_app _ _ H) as [post Hp]. exists [], post. exact Hp.
+    + destruct (IH H) as [pre [post Hp]]. exists (y :: pre), post. rewrite Hp. reflexivity.
+Qed.
+
+(* the parent's text contains the escape of the nested statement's text, for every environment: the literal
+   of the parent denotes (unesc_esc) exactly the nested statement *)
+Theorem nested_in_denotes nf pf :
+  nested_in nf pf = true ->
+  forall e, idents_ok nf e -> exists a b, render pf e = a ++ esc_q (render nf e) ++ b.
+Proof.
+  unfold nested_in. intros H e Hid. destruct (infixb_app _ _ H) as [pre [post Hp]].
+  exists (concat (map (irender e) pre)), (concat (map (irender e) post)).
+  rewrite (render_items pf), Hp, !map_app, !concat_app, <- render_items, render_esc_frags by exact Hid.
+  reflexivity.
 Qed.
